@@ -156,11 +156,14 @@ def oracle(run):
         run.case(("oracle", rsexp.tree(t), pre), True)
         for sig, detail in check_tree(t, pre):
             run.violate(sig, detail, {"tree": rsexp.tree(t), "prefix": pre})
+        # the classes must be those of the documented drawing of the tree (C02's independent border / geometry spec)
+        for sig, detail in c02.check_tree(t):
+            run.violate("C04:classes-of-a-wrong-grid:" + sig.split(":", 1)[1], detail, {"tree": rsexp.tree(t), "prefix": pre})
 
 
 def replay(run, obj):
     t = c02.tree_of_sexp(sexp.decode(sexp.parse(obj["replay"]["tree"])))
-    res = check_tree(t, obj["replay"]["prefix"])
+    res = check_tree(t, obj["replay"]["prefix"]) + c02.check_tree(t)
     for x in res:
         print(*x)
     return bool(res)
